@@ -109,4 +109,28 @@ pub fn run_prop(ctx: &Ctx, sink: &mut Sink) {
         sink.push(Case { req, imp, tags: vec!["print", "blank-start", "nt"] });
         let _ = std::fs::remove_dir_all(&dir);
     }
+    // ---- one pipeline whose paths are long and multi-byte: more bytes than one command line holds, but far
+    // fewer characters - xargs -0 must split by bytes and still deliver every path once
+    {
+        let dir = ctx.scratch("bigmb").join("pad").join("w");
+        let comp = "日".repeat(84);
+        let mut deep = dir.join("big");
+        for _ in 0..9 { deep = deep.join(&comp); }
+        std::fs::create_dir_all(&deep).unwrap();
+        let nfiles = if ctx.thorough { 400 } else { 120 };
+        for i in 0..nfiles { std::fs::write(deep.join(format!("f{i:04}{}", "本".repeat(70))), b"").unwrap(); }
+        let roots = vec![(b"big".to_vec(), crate::world::observe_root(b"big", &dir.join("big")))];
+        let toks: Vec<String> = vec!["sorted".into(), "type:f".into(), "print0".into()];
+        let mut args: Vec<String> = vec!["big".into()];
+        args.extend(argv_of(&toks, &mut rng));
+        // (xargs under a 512 KiB stack: ARG_MAX is 128 KiB, the paths add up to more than twice that)
+        let (fst, xst, inv) = crate::recorder::run_pipe0_stack(ctx, &args, &dir, false, Some(512 << 10));
+        let mut delivered: Vec<Vec<u8>> = vec![];
+        for i in &inv { delivered.extend(i.argv.iter().skip(1).cloned()); }
+        let worlds: Vec<String> = roots.iter().map(|(_, w)| w.clone()).collect();
+        let mut tags = vec!["pipe", "multi-byte-bulk", "nt"];
+        if inv.len() > 1 { tags.push("several-commands"); }
+        sink.push(Case { req: format!("pipe0 P {} {}", worlds.join(";"), toks.join(",")), imp: format!("fst={fst} xst={xst} args={}", hex_list(&delivered)), tags });
+        let _ = std::fs::remove_dir_all(ctx.scratch("bigmb"));
+    }
 }
